@@ -13,6 +13,9 @@ Model driver for C19 (MMO scene manager).
   itself, evaluated on the implementation's own dumps (it keeps only the previous
   dump of the implementation, never the model's state).
 
+Ops that place a scene (`spawn`, `keeper`, `halloc`) and `reply` run `Sys.spawn` / `Sys.keeper` / `Sys.halloc` /
+`Sys.reply` of Model/SceneM.lean — the functions the theorems of Props/C19.lean are about.
+
 Observation: `r=<result> S=<sid:cfg:line:svc,…> L=<cfg:line/sid,…;…> V=<svc:working:n:failed:idle,…>`.
 -/
 namespace Cell2v.Driver.C19
@@ -21,10 +24,12 @@ open Cell2v.Driver Cell2v.SceneM
 /-! ### model side -/
 
 structure DSt where
-  m : Mgr := Mgr.init
+  s : Sys := Sys.init                       -- manager, cluster view, allocation requests in flight (Model/SceneM.lean)
   cfgs : List Nat := []
-  routable : List Nat := []                 -- scene services present in the cluster view
-  inflight : List (Nat × Nat × Nat) := []   -- unanswered allocation requests of SpawnScene: (sid, cfg, svc)
+
+def DSt.m (d : DSt) : Mgr := d.s.m
+
+def DSt.setM (d : DSt) (m : Mgr) : DSt := { d with s := { d.s with m := m } }
 
 def joinWith (sep : String) (xs : List String) : String := sep.intercalate xs
 
@@ -38,7 +43,7 @@ def dump (s : DSt) : String :=
   let sv := s.m.services.mergeSort (fun a b => a.1 ≤ b.1)
   let vs := sv.map fun e => s!"{e.1}:{if e.2.working then 1 else 0}:{e.2.n}:{e.2.failed}:{s.m.now - e.2.last}"
   "S=" ++ joinWith "," (sc.map showScene) ++ " L=" ++ joinWith ";" ls ++ " V=" ++ joinWith "," vs ++
-    " P=" ++ joinWith "," (s.inflight.map fun e => s!"{e.1}:{e.2.1}:{e.2.2}")
+    " P=" ++ joinWith "," (s.s.pending.map fun e => s!"{e.sid}:{e.cfg}:{e.svc}")
 
 def isArgmin (svcs : List (Nat × Stat)) (k : Nat) : Bool :=
   svcs.any fun e => e.1 == k && e.2.working &&
@@ -56,38 +61,78 @@ def showReq : Option SceneObj → String
   | none => "none"
   | some o => showScene o
 
+def showHAlloc : HAlloc → String
+  | .silent => "silent"
+  | .refused _ _ => "answered:nack"
+  | .sent sid k => s!"{sid}:{k}:sent"
+
+def showSpawned : Spawned → String
+  | .noService => "false"
+  | .noRoute _ _ => "noroute"
+  | .sent sid k => s!"{sid}:{k}:sent"
+
+/-- `spawn` / `keeper` with the service map visited in `order`: new state and result -/
+def placeOp (s : DSt) (ws : List String) (order : List (Nat × Stat)) : DSt × String :=
+  let cfg := (kvNat ws "cfg").getD 0
+  if ws.head? == some "keeper" then
+    let n := (kvNat ws "n").getD 0
+    let (sys', cnt) := s.s.keeper cfg n order
+    -- what was sent is visible as the new last entry of the request table
+    let tag := if sys'.pending.length == s.s.pending.length then "quiet"
+               else match sys'.pending.getLast? with | some p => s!"{p.sid}:{p.svc}:sent" | none => "quiet"
+    ({ s with s := sys' }, s!"{tag}/{cnt}")
+  else if ws.head? == some "halloc" then
+    let (sys', r) := s.s.halloc cfg order
+    ({ s with s := sys' }, showHAlloc r)
+  else
+    let (sys', r) := s.s.spawn cfg order
+    ({ s with s := sys' }, showSpawned r)
+
+/-- the visiting orders worth trying: the map's own order, and each service first (by
+`alloc_any_least_busy_possible` / `alloc_prefers_least_busy` these reach every possible choice) -/
+def orders (s : DSt) : List (List (Nat × Stat)) :=
+  let svcs := s.m.services
+  svcs :: svcs.map (fun e => e :: svcs.erase e)
+
 /-- deterministic part of an op: new state and, for deterministic ops, the result -/
 def apply (s : DSt) (ws : List String) : Option (DSt × Option String) :=
-  let ev (e : Ev) : Option (DSt × Option String) := some ({ s with m := s.m.step e }, some "ok")
+  let sev (e : SEv) : Option (DSt × Option String) := some ({ s with s := s.s.step e }, some "ok")
   match ws.head? with
   | some "reset" => some ({}, some "ok")
   | some "route" => do
     let v ← kv ws "svcs"
-    some ({ s with routable := (v.splitOn ",").filterMap String.toNat? }, some "ok")
+    sev (.route ((v.splitOn ",").filterMap String.toNat?))
   | some "spawn" => do let _ ← kvNat ws "cfg"; some (s, none)
+  | some "halloc" => do let _ ← kvNat ws "cfg"; some (s, none)
+  | some "keeper" => do let _ ← kvNat ws "cfg"; let _ ← kvNat ws "n"; some (s, none)
   | some "reply" => do
     let sid ← kvNat ws "sid"
     let res ← kv ws "res"
-    match s.inflight.find? (fun e => e.1 == sid) with
-    | none => some (s, some "unknown")
-    | some (_, cfg, svc) =>
-      let s1 := { s with inflight := s.inflight.filter (fun e => e.1 != sid) }
-      -- mgr_createscene.go: only a successful answer registers the scene
-      let evs := (spawnEvents { s.m with nextId := sid } cfg svc (some (if res == "ok" then .ok else .err))).drop 1
-      some ({ s1 with m := s1.m.run evs, cfgs := cfg :: s1.cfgs }, some "done")
-  | some "refresh" => do ev (.refresh (← kvNat ws "svc") (← kvNat ws "n"))
-  | some "adv" => do ev (.adv (← kvNat ws "ms"))
-  | some "tick" => ev .tick
-  | some "lost" => do ev (.lost (← kvNat ws "svc"))
-  | some "wlost" => do ev (.wlost (← kvNat ws "svc"))
+    match s.s.pending.find? (fun e => e.sid == sid) with
+    | none => some ({ s with s := s.s.step (.reply sid (res == "ok")) }, some "unknown")
+    | some p =>
+      -- the waiting client of the AllocScene handler (if any) is answered now
+      let ack := match s.s.replyAck sid (res == "ok") with
+        | none => ""
+        | some true => s!"+ack:{sid}:{p.svc}"
+        | some false => "+nack"
+      some ({ s with s := s.s.step (.reply sid (res == "ok")), cfgs := p.cfg :: s.cfgs }, some ("done" ++ ack))
+  | some "refresh" => do sev (.refresh (← kvNat ws "svc") (← kvNat ws "n"))
+  | some "adv" => do sev (.adv (← kvNat ws "ms"))
+  | some "tick" => sev .tick
+  | some "lost" => do sev (.lost (← kvNat ws "svc"))
+  | some "wlost" => do sev (.wlost (← kvNat ws "svc"))
   | some "create" => do
     let cfg ← kvNat ws "cfg"
-    some ({ s with m := s.m.step (.create (← kvNat ws "sid") cfg (← kvNat ws "svc")), cfgs := cfg :: s.cfgs }, some "ok")
-  | some "end" => do ev (.endScene (← kvNat ws "sid"))
+    some ({ s.setM (s.m.step (.create (← kvNat ws "sid") cfg (← kvNat ws "svc"))) with cfgs := cfg :: s.cfgs }, some "ok")
+  | some "end" => do sev (.endScene (← kvNat ws "sid"))
   | some "weight" => do some (s, some (cmpKey (← kvNat ws "a") (← kvNat ws "b")))
   | some "alloc" => do let _ ← kvNat ws "cfg"; some (s, none)
   | some "req" => do let _ ← kvNat ws "cfg"; some (s, none)
   | _ => none
+
+def isPlaceOp (ws : List String) : Bool :=
+  ws.head? == some "spawn" || ws.head? == some "keeper" || ws.head? == some "halloc"
 
 def stepModel (s : DSt) (line : String) : DSt × String :=
   let ws := words line
@@ -97,17 +142,11 @@ def stepModel (s : DSt) (line : String) : DSt × String :=
   | some (_, none) =>
     if ws.head? == some "alloc" then
       match s.m.alloc satKey s.m.services with
-      | (m', none) => let s' := { s with m := m' }; (s', "r=none " ++ dump s')
-      | (m', some (k, sid)) => let s' := { s with m := m' }; (s', s!"r={sid}:{k} " ++ dump s')
-    else if ws.head? == some "spawn" then
-      let cfg := (kvNat ws "cfg").getD 0
-      match s.m.alloc satKey s.m.services with
-      | (_, none) => (s, "r=false " ++ dump s)
-      | (m', some (k, sid)) =>
-        if s.routable.contains k then
-          let s' := { s with m := m', inflight := s.inflight ++ [(sid, cfg, k)] }
-          (s', s!"r={sid}:{k}:sent " ++ dump s')
-        else let s' := { s with m := m' }; (s', "r=noroute " ++ dump s')
+      | (m', none) => let s' := s.setM m'; (s', "r=none " ++ dump s')
+      | (m', some (k, sid)) => let s' := s.setM m'; (s', s!"r={sid}:{k} " ++ dump s')
+    else if isPlaceOp ws then
+      let (s', r) := placeOp s ws s.m.services
+      (s', s!"r={r} " ++ dump s')
     else
       let cfg := (kvNat ws "cfg").getD 0
       (s, s!"r={showReq (s.m.world.reqScene cfg 0)} " ++ dump s)
@@ -128,7 +167,7 @@ def stepAccept (s : DSt) (line : String) : DSt × String :=
           let want := "r=none " ++ dump s
           (s, if (findIdle satKey s.m.services).isNone && obs == want then "ok" else "REJECT want a placement or " ++ want)
         else
-          let s' := { s with m := s.m.step .alloc }
+          let s' := s.setM (s.m.step .alloc)
           let okR := match r.splitOn ":" with
             | [a, b] => a.toNat? == some s.m.nextId && (match b.toNat? with | some k => isArgmin s.m.services k | none => false)
             | _ => false
@@ -138,26 +177,12 @@ def stepAccept (s : DSt) (line : String) : DSt × String :=
             -- follow the model's own choice
             let (sm, o) := stepModel s op
             (sm, "REJECT want (any least-busy working service) e.g. " ++ o)
-      else if ws.head? == some "spawn" then
-        let cfg := (kvNat ws "cfg").getD 0
-        let cands := (s.m.services.filter (fun e => isArgmin s.m.services e.1)).map (·.1)
-        let burnt := { s with m := s.m.step .alloc }
-        let s' : Option DSt :=
-          if r == "false" then (if cands.isEmpty then some s else none)
-          else if r == "noroute" then (if cands.any (fun k => !s.routable.contains k) then some burnt else none)
-          else match r.splitOn ":" with
-            | [a, b, "sent"] =>
-              match a.toNat?, b.toNat? with
-              | some sid, some k =>
-                if sid == s.m.nextId && cands.contains k && s.routable.contains k then
-                  some { burnt with inflight := s.inflight ++ [(sid, cfg, k)] }
-                else none
-              | _, _ => none
-            | _ => none
-        match s' with
-        | some s' =>
-          let want := s!"r={r} " ++ dump s'
-          if obs == want then (s', "ok") else (s', "REJECT want " ++ want)
+      else if isPlaceOp ws then
+        -- SpawnScene / the keeper: accepted iff the model, for SOME visiting order of the service map,
+        -- gives exactly this result and this state
+        let outs := (orders s).map (placeOp s ws)
+        match outs.find? (fun o => s!"r={o.2} " ++ dump o.1 == obs) with
+        | some o => (o.1, "ok")
         | none =>
           let (sm, o) := stepModel s op
           (sm, "REJECT want (any least-busy working service; sent iff it is in the cluster view) e.g. " ++ o)
@@ -257,6 +282,8 @@ def consistency (d : PDump) : Option String :=
 structure SpecSt where
   prev : Option PDump := none
   tainted : Bool := false
+  now : Nat := 0                          -- virtual time: the sum of the `adv` steps of this case
+  since : List (String × Nat) := []       -- per service: time of its last refresh
 
 def satW (n : Nat) : Nat := min n 5000
 
@@ -293,12 +320,25 @@ def checkOp (ws : List String) (r : String) (p d : PDump) : Option String :=
     match kvNat ws "sid", kvNat ws "cfg" with
     | some sid, some cfg => checkCreate p d sid cfg (svcTok ws)
     | _, _ => none
-  | some "spawn" =>
-    -- SpawnScene only sends the request; nothing may be registered before (or without) a successful answer
+  | some "spawn" | some "halloc" =>
+    -- SpawnScene / the AllocScene handler only send the request; nothing may be registered before (or without) a successful answer
     if !(sameScenes p.scenes d.scenes && p.lines == d.lines) then
-      if r == "noroute" then some "C19/failed-create-registered the allocation request failed at once, yet the world changed"
+      if r == "noroute" || r == "answered:nack" then some "C19/failed-create-registered the allocation request failed at once, yet the world changed"
       else some "C19/world-changed-by-readonly-op a scene was registered before its creation was confirmed"
     else match r.splitOn ":" with
+      | [a, k, "sent"] => checkPlacement d a k
+      | _ => none
+  | some "keeper" =>
+    -- the keeper: like SpawnScene, and nothing at all while the configuration has enough confirmed lines
+    let rs := (r.splitOn "/").headD ""
+    let cnt := ((r.splitOn "/").getD 1 "").toNat?
+    let have_ := (p.lines.filter (fun l => some l.cfg == kvNat ws "cfg")).length
+    if !(sameScenes p.scenes d.scenes && p.lines == d.lines) then
+      if rs == "quiet" then some "C19/failed-create-registered no request is outstanding for it (none was sent or it failed at once), yet the world changed"
+      else some "C19/world-changed-by-readonly-op a scene was registered before its creation was confirmed"
+    else if decide (have_ ≥ (kvNat ws "n").getD 0) && (rs != "quiet" || cnt != some have_ || p.pending != d.pending) then
+      some s!"C19/keeper-spawned-beyond-need the configuration already has {have_} lines"
+    else match rs.splitOn ":" with
       | [a, k, "sent"] => checkPlacement d a k
       | _ => none
   | some "reply" =>
@@ -308,7 +348,12 @@ def checkOp (ws : List String) (r : String) (p d : PDump) : Option String :=
       match p.pending.find? (·.sid == sid) with
       | none => unchanged
       | some q =>
-        if (kv ws "res") == some "ok" then checkCreate p d sid q.cfg q.svc
+        -- a client of the handler is told "ok" only for a scene that is live now, on the service it is told
+        let ackBad := match (r.splitOn "+ack:").getD 1 "" |>.splitOn ":" with
+          | [a, k] => !(d.scenes.any fun o => some o.sid == a.toNat? && o.svc == k) || (kv ws "res") != some "ok"
+          | _ => false
+        if ackBad then some "C19/client-told-ok-without-live-scene the handler's client was answered ok, yet that scene is not live on that service"
+        else if (kv ws "res") == some "ok" then checkCreate p d sid q.cfg q.svc
         else if sameScenes p.scenes d.scenes && p.lines == d.lines then none
         else some "C19/failed-create-registered the scene service refused the allocation, yet the scene became live"
   | some "end" =>
@@ -372,7 +417,10 @@ def stepSpec (s : SpecSt) (line : String) : SpecSt × String :=
           let dup := (ws.head? == some "create" || ws.head? == some "reply") &&
             (match s.prev, kvNat ws "sid" with | some p, some sid => p.scenes.any (·.sid == sid) | _, _ => false)
           let tainted := s.tainted || dup
-          let s' : SpecSt := { prev := some d, tainted := tainted }
+          -- the keep-alive clock of the monitor itself
+          let now := if ws.head? == some "adv" then s.now + (kvNat ws "ms").getD 0 else s.now
+          let since := if ws.head? == some "refresh" then (svcTok ws, now) :: s.since.filter (·.1 != svcTok ws) else s.since
+          let s' : SpecSt := { prev := some d, tainted := tainted, now := now, since := since }
           if tainted then (s', "ok")
           else
             match consistency d with
@@ -383,7 +431,17 @@ def stepSpec (s : SpecSt) (line : String) : SpecSt × String :=
               | some p =>
                 match checkOp ws r p d with
                 | some v => (s', "VIOLATION " ++ v ++ " after: " ++ op)
-                | none => (s', "ok")
+                | none =>
+                  -- the periodic check declares a service lost only after at least 4 x 3 s without a refresh
+                  let early := if ws.head? == some "tick" then
+                      (p.stats.filter fun st => st.working && !(d.stats.any fun t => t.svc == st.svc && t.working)).find? fun st =>
+                        match s.since.find? (·.1 == st.svc) with
+                        | some (_, t0) => decide (now < t0 + 12000)
+                        | none => false
+                    else none
+                  match early with
+                  | some st => (s', s!"VIOLATION C19/lost-before-silence service {st.svc} was declared lost less than 12 s after its last refresh after: " ++ op)
+                  | none => (s', "ok")
   | _ => (s, "bad-line")
 
 end Cell2v.Driver.C19
